@@ -65,7 +65,7 @@ def gen_case(rng, cid, big=False, with_results=None):
             r, t, h = rng.choice([(10.0, 1.0, 100.0), (12.7, 0.5, 2500.0)])
             ts = {"r": hx(r), "t": hx(t), "h": hx(h), "nr": nr, "nt": nt, "nz": nz, "dim": dim,
                   "T0": rng.choice([["int", 300], ["float", hx(550.5)]]), "mult": rng.choice([1, 1, 2, 7]),
-                  "plane": hx(h * rng.choice([0.0, 0.5, 0.25])), "angle": hx(rng.choice([0.0, 1.5])), "times": times}
+                  "plane": hx(h * rng.choice([0.0, 0.5, 0.25])), "angle": hx(rng.choice([0.0, 1.5, -1.5707963267948966, 7.0, -0.25])), "times": times}
             if custom:
                 ts["name"] = rng.choice(["north", "t", "zeta"]) + str(q)
             shape = {1: (nr,), 2: (nr, nt), 3: (nr, nt, nz)}[dim]
